@@ -40,6 +40,12 @@ HOSTILE = [
     "use nowhere, only: a => b\ncall a%b%c(d%e, f=g%h)\n",
     "module d\ncharacter(len=*), parameter :: s = \"{a} {0} {\" !< doc {x} }{\ncontains\n!> \\f$ \\vec{v} {} \\f$\n!! {langid}\nsubroutine q(a) !< {b}\ninteger :: a !< {c\nend subroutine\nsubroutine r()\ncall q(1)\nprint *, s\nend subroutine\nend module d\n",
     "module g\ntype t\ncontains\nprocedure :: a, b\ngeneric :: gg => a, b\ngeneric :: operator(+) => a\nend type\ncontains\nsubroutine a(x)\nclass(t) :: x\nend\nsubroutine b(x, y)\nclass(t) :: x\nend\nsubroutine u(v)\ntype(t) :: v\ncall v%gg()\nend\nend module\n",
+    # every statement prefix the completion context classifier distinguishes, outside any program unit and inside one
+    "integer, pa\nuse \nuse m, only: \ncall \ntype(\nclass(\nimport \nprocedure(\nmodule procedure \ninteger :: \nif (\nx%\ninteger(kind=\ncharacter(len=\n"
+    "type, ext\ninterface \nend \nprint *, \nallocate(\nwrite(*,*) \nintent(\ndo i = \nreal, dimension(\nuse, intrinsic :: \ninclude '\ninclude \"x\n#include <\n",
+    "module ctx\ninteger, pa\nuse \ncontains\nsubroutine s(a)\ninteger, inten\ninteger, intent(i\ncall \ntype(\nprocedure(\nx%\ncall a%\nuse ctx, only: \n"
+    "import \nmodule procedure \nend \nend subroutine\nend module ctx\n",
+    "module dp\ntype t\n type(t), pointer :: n\n integer :: v\nend type\ncontains\nsubroutine s(x)\n type(t) :: x\n x%" + "n%" * 45 + "v = 1\n call q(x%" + "n%" * 120 + ")\nend subroutine\nend module dp\n",
     "import :: x\nprogram p\nimport, none\ninterface\nsubroutine s()\nimport\nend subroutine\nend interface\nx = 1\nend program\n",
 ]
 
@@ -113,7 +119,12 @@ class Sweep:
                     walk(x, uri)
         walk(obj, None)
         for p in probs[:2]:
-            self.report("C09:range-" + where.split("/")[-1], "%s returns a place that does not exist: %s" % (where, p), inp, obj)
+            sig = "C09:range-" + where.split("/")[-1]
+            stale = getattr(self, "unsaved_other", None)
+            if stale and p.endswith("(%s)" % stale) and inp.get("file") != stale:
+                # a link held by another file into the syntax tree of a buffer that was edited and not yet saved (known finding)
+                sig = "C09:stale-link-unsaved-edit"
+            self.report(sig, "%s returns a place that does not exist: %s" % (where, p), inp, obj)
 
     def report(self, sig, what, inp, got):
         key = (sig, what[:60])
@@ -267,6 +278,7 @@ def run_sweep(ctx, quick):
             sw.open(f)
             total += sw.sweep_doc(f, 37 if quick else 5, 7 if quick else 5)
             ctx.count(("sample", os.path.relpath(f, src)), True)
+        total += history_phase(ctx, sw, src)
         # non-positional answers carry locations too
         for f in chosen[:40]:
             resp, _ = impl.request(sw.srv, sw.conn, "textDocument/documentSymbol", {"textDocument": {"uri": impl.uri(f)}})
@@ -280,6 +292,48 @@ def run_sweep(ctx, quick):
         ctx.cov["requests"] = total
     finally:
         shutil.rmtree(root, ignore_errors=True)
+
+
+def history_phase(ctx, sw, src):
+    """positional requests while buffers are edited but not saved, and after a file is deleted and closed"""
+    a = os.path.join(src, "hist_consts.f90")
+    b = os.path.join(src, "hist_user.f90")
+    inc = os.path.join(src, "hist_short.inc")
+    sw.open(a, "module hist_consts\n  implicit none\n  real :: hist_tol = 1.0\n  type :: hist_t\n    integer :: k\n  end type\ncontains\n  subroutine hist_init(x)\n    real :: x\n"
+               "  end subroutine\nend module hist_consts\n")
+    sw.open(b, "module hist_user\n  use hist_consts\n  implicit none\n  type(hist_t) :: obj\ncontains\n  subroutine run(y)\n    real :: y\n    y = hist_tol\n    call hist_init(y)\n"
+               "    obj%k = 1\n  end subroutine run\nend module hist_user\n")
+    total = sw.sweep_doc(b, 3, 2)
+    # unsaved edit of the used module: renamed, then emptied, then syntactically broken
+    sw.unsaved_other = "hist_consts.f90"
+    for new_text in ("module hist_renamed\n  real :: hist_tol\nend module hist_renamed\n", "", "module hist_consts\n type :: hist_t\n"):
+        n_old = len(sw.lines_of(a) or [""])
+        impl.did_change(sw.srv, a, [{"range": {"start": {"line": 0, "character": 0}, "end": {"line": n_old + 1, "character": 0}}, "text": new_text}])
+        total += sw.sweep_doc(b, 3, 2)
+        total += sw.sweep_doc(a, 2, 2)
+    # the file disappears from disk and is closed; links are rebuilt by the next save
+    os.unlink(a)
+    impl.did_close(sw.srv, a)
+    total += sw.sweep_doc(b, 3, 2)
+    impl.did_save(sw.srv, b)
+    sw.unsaved_other = None
+    total += sw.sweep_doc(b, 3, 2)
+    ctx.count(("history", "unsaved-rename/empty/broken, delete+close"), True)
+    # known finding: go-to-definition on an INCLUDE statement reports the line of the statement as a line of the included file
+    with open(inc, "w") as f:
+        f.write("integer :: hist_z\n")
+    p = os.path.join(src, "hist_inc.f90")
+    sw.open(p, "program hist_inc\n implicit none\n\n\n\n include 'hist_short.inc'\n hist_z = 1\nend program hist_inc\n")
+    resp, _ = impl.request(sw.srv, sw.conn, "textDocument/definition", impl.pos_params(p, 5, 12))
+    if resp and resp[0] == "r" and resp[2]:
+        from .c05 import impl_path
+        tgt = impl_path(resp[2]["uri"])
+        lines = sw.lines_of(tgt) or []
+        prob = valid_range(resp[2]["range"], lines)
+        if prob:
+            sw.ctx.report("C09:include-definition-line", "go-to-definition on an INCLUDE statement answers with the line of the statement inside the included file: %s" % prob,
+                          {"kind": "counterexample", "input": {"file": "hist_inc.f90", "line": 5, "character": 12, "included": "integer :: hist_z"}, "implementation": resp[2]["range"]})
+    return total
 
 
 def check_model(ctx, n):
